@@ -237,6 +237,63 @@ def run_C13(ctx):
                             if is_np != want_np:
                                 out["failures"].append({"key": "C13:type", "net": net.to_json(),
                                                         "what": f"{nm} of {el.name} has type {type(x).__name__} under explicit {type(ex).__name__}"})
+                # ---- element-level calls (no re-initialisation) with ANOTHER engine object of the same kind: that
+                # engine is asked for every primitive the whole-network step needed - nothing an earlier engine
+                # computed is re-used - and the first engine and the selected one are asked nothing
+                full = {x for x in ex.log if "." in x}          # the model primitives (nodes. / links. / origins. / destinations.)
+                ex3 = mk_ex()
+                del ex.log[:]
+                try:
+                    with np.errstate(all="ignore"):
+                        for el in list(R.origins.values()) + list(R.links.values()):
+                            if el in set(R.net.elements):
+                                el.step(net=R.net, engine=ex3, **opts, **R.step_kwargs())
+                    out["coverage"]["evaluations"] += 1
+                    missing = full - set(ex3.log)
+                    if missing:
+                        out["failures"].append({"key": "C13:element-step-reuses:" + sorted(missing)[0], "net": net.to_json(),
+                                                "what": f"network stepped with one {type(ex).__name__}, then every element stepped with "
+                                                        f"another {type(ex3).__name__} object: it was never asked for {sorted(missing)} "
+                                                        f"(values computed by the earlier engine were re-used) ({net.family})"})
+                    if sel.log or ex.log:
+                        out["failures"].append({"key": "C13:element-step-other-used", "net": net.to_json(),
+                                                "what": f"elements stepped with an explicit engine: the selected engine evaluated "
+                                                        f"{sorted(set(sel.log))}, the engine of the earlier step {sorted(set(ex.log))}"})
+                except Exception as exn:
+                    out["failures"].append({"key": "C13:element-step-raise", "net": net.to_json(),
+                                            "what": f"stepping the elements one by one with an explicit {type(ex3).__name__} raised {exn!r:.200}"})
+                # ---- queries without an engine use the SELECTED engine (selected after import, by instance)
+                sel2 = mk_ex()
+                engines.use(sel2)
+                try:
+                    with np.errstate(all="ignore"):
+                        for el in R.origins.values():
+                            if el in set(R.net.elements):
+                                el.get_flow(net=R.net, **R.step_kwargs())
+                        for el in R.links.values():
+                            if el in set(R.net.elements):
+                                el.get_flow()
+                        for el in R.dests.values():
+                            if el in set(R.net.elements):
+                                el.get_density(net=R.net)
+                    out["coverage"]["evaluations"] += 1
+                    if not sel2.log:
+                        out["failures"].append({"key": "C13:query-ignores-selection", "net": net.to_json(),
+                                                "what": f"flows/densities queried without an engine after selecting a {type(sel2).__name__} "
+                                                        f"instance: the selected engine evaluated nothing"})
+                    asked = {"origins.get_mainstream_flow": "main", "origins.get_ramp_flow": "ramp", "origins.get_simplifiedramp_flow": "simp_lim"}
+                    for prim, kind in asked.items():
+                        if any(k_.startswith(kind) for k_ in net.origins.values()) and prim not in sel2.log:
+                            out["failures"].append({"key": "C13:query-ignores-selection:" + prim, "net": net.to_json(),
+                                                    "what": f"origin flows queried without an engine: the selected {type(sel2).__name__} "
+                                                            f"was never asked for {prim} ({net.family})"})
+                    if sel.log or ex.log or ex3.log != ex3.log[:len(ex3.log)]:
+                        pass
+                except Exception as exn:
+                    out["failures"].append({"key": "C13:query-raise", "net": net.to_json(),
+                                            "what": f"querying flows without an engine (selected {type(sel2).__name__}) raised {exn!r:.200}"})
+                engines.use(sel)
+                del sel.log[:]
                 # ---- the same network stepped again with another explicit engine: nothing of the first
                 # engine may survive (variables re-created by the new engine), the first engine and the
                 # selected one evaluate nothing
